@@ -110,6 +110,17 @@ CLAIMED = {
         note="Trusted: TLC, pools.py byte-order table, encoding/json token scanner.",
         technique="TLA+ spec (Codec.tla KeyOrder) model-checked with TLC; behaviours replayed on the real Marshal",
         design="6/C19"),
+    "C10": dict(
+        text="MC_Total.tla enumerates the malformed inputs of every entry point and predicts where the documentation fixes it "
+             "whether the call must fail: JSON token sequences with a TLA+ recogniser of the JSON grammar, keyword x ill-typed "
+             "value, Schema graphs (IsTree), malformed URIs/regexps/conflicts, Loader misbehaviours; the resolver machine "
+             "(ResolverCode.tla) contributes NoPanic and termination for all fault subsets. Every case is executed on the real "
+             "code under recover() and a deadline; a panic, fatal error or deadline miss is the violation, as is accepting an "
+             "input the specification says must be rejected.",
+        note="Trusted: TLC, recover()/deadline observation. Arbitrary byte strings are represented by token sequences (length <= 5) "
+             "and by all generated documents of the other families; For/ForType on arbitrary types is covered by C16's check.",
+        technique="TLA+ enumeration of malformed inputs with predicted error/no-error, model-checked resolver NoPanic/termination; replayed under recover+deadline",
+        design="6/C10"),
     "C13": dict(
         text="Concurrency.tla runs two Validate calls as processes over private dynamic-scope stacks and read-only Resolved tables; "
              "the processes' programs are the frame-event sequences RECORDED from the real code (frame hook), so the model is bound "
